@@ -270,6 +270,40 @@ def p_edit(e, arg):
     e.explore(prog, 'edit')
 
 
+def p_edit_sequence(e, arg):
+    """Two real editing operations in a row: the invariant holds after each (the second starts from a geometry that is no
+    longer a plain rectangular grid), areas and volumes are conserved by the conserving operations."""
+    shape, nsurf, steps = arg
+    tag = '[%s on %dx%dx%d, %d surfaces]' % (' then '.join('%s%s' % (op, tuple(a)) for op, a in steps), shape[0], shape[1], shape[2], nsurf)
+    conserving = ('refine', 'refine_bisect', 'refine_bisect_x', 'refine_layers', 'rename_column', 'rename_swap', 'rename_layer', 'translate', 'rotate90', 'decompose_columns', 'snap_to_nearest_keep')
+    def prog(e):
+        geo, S = build_rect(e, shape[0], shape[1], shape[2], shape[3], 0, nsurf)
+        area0, vol0 = plan_area(e, geo), rock_volume(e, geo)
+        for k, (op, a) in enumerate(steps):
+            try:
+                OPS[op](e, geo, a)
+            except PyExc as ex:
+                e.fail('post:operation_%d_completes' % (k + 1) + tag, 'raises %s: %s' % (ex.cls, ex.msg)); return
+            post = wf(e, geo, valid_mesh=True)
+            for g in GROUPS:
+                if g == 'no_node_inside_another_columns_edge':
+                    continue
+                name = 'post:%s_after_operation_%d%s' % (g, k + 1, tag)
+                if post[g]:
+                    e.fail(name, '; '.join(post[g][:3]))
+                else:
+                    e.prove(True, name)
+        if all(op in conserving for op, a in steps):
+            e.prove(_valid(e, plan_area(e, geo) == area0), 'post:total_plan_area_unchanged' + tag)
+            e.prove(_valid(e, rock_volume(e, geo) == vol0), 'post:total_rock_volume_unchanged' + tag)
+    e.explore(prog, 'edit_sequence')
+
+
+SEQUENCES = [((2, 2, 2, 0), 1, (('refine', (0,)), ('refine_layers', (1, 2)))), ((2, 2, 2, 0), 1, (('rename_column', (1,)), ('refine', (1,)))), ((2, 2, 2, 0), 1, (('refine_bisect', (0,)), ('refine', (1,)))),
+             ((2, 2, 2, 0), 1, (('translate', ()), ('rotate90', (1,)))), ((2, 2, 3, 0), 1, (('refine_layers', (1, 2)), ('snap_to_layers', ()))), ((3, 2, 2, 0), 1, (('refine', (0, 1)), ('rename_swap', (0, 2))))]
+SEQUENCES_THOROUGH = [((3, 3, 2, 0), 1, (('refine', (4,)), ('refine', (0,)))), ((2, 2, 2, 0), 1, (('refine', ()), ('refine_layers', (1, 2)))), ((3, 2, 2, 0), 1, (('refine_bisect_x', (0, 1)), ('reduce', (0,)))),
+                      ((2, 2, 3, 0), 2, (('snap_to_nearest', ()), ('refine', (0,)))), ((2, 2, 2, 1), 1, (('rotate90', (2,)), ('refine', (3,))))]
+
 EDITS = [((2, 2, 2, 0), 1, 'delete_column', (0,)), ((2, 2, 2, 1), 1, 'delete_column', (3,)), ((2, 2, 2, 2), 1, 'rename_column', (1,)), ((2, 2, 2, 0), 1, 'rename_swap', (0, 3)),
          ((2, 2, 2, 0), 1, 'rename_layer', (1,)), ((2, 2, 2, 0), 1, 'split_column', (0, 0)), ((2, 2, 2, 0), 1, 'split_column', (3, 1)),
          ((2, 2, 2, 0), 1, 'refine', ()), ((2, 2, 2, 0), 1, 'refine', (0,)), ((3, 1, 2, 0), 0, 'refine', (0,)), ((3, 2, 2, 0), 0, 'refine', (0, 1)), ((2, 2, 2, 0), 1, 'refine_bisect', (0,)), ((2, 2, 2, 0), 1, 'refine_bisect_x', (0, 2)), ((3, 3, 2, 0), 0, 'refine_bisect_edge', (4, 5, 3)), ((3, 2, 2, 0), 1, 'refine_bisect_edge', (1, 2, 0)), ((4, 3, 2, 0), 0, 'refine_edge', (2, 5, 6, 4, 7, 1, 2, 9, 10)),
@@ -277,7 +311,7 @@ EDITS = [((2, 2, 2, 0), 1, 'delete_column', (0,)), ((2, 2, 2, 1), 1, 'delete_col
          ((2, 2, 3, 0), 1, 'delete_layer', (3,)), ((2, 2, 3, 0), 1, 'delete_layer', (1,)), ((2, 2, 2, 0), 1, 'translate', ()), ((2, 2, 2, 0), 1, 'rotate90', (1,)), ((2, 2, 2, 0), 1, 'copy_layers_from', (3,)), ((2, 1, 3, 1), 2, 'copy_layers_from', (2,)), ((2, 2, 2, 0), 1, 'wells', ()), ((3, 2, 2, 0), 1, 'rotate90', (2,)), ((2, 2, 3, 0), 2, 'snap_to_layers', ()),
          ((2, 2, 3, 0), 2, 'snap_to_nearest', ()), ((2, 2, 2, 0), 1, 'delete_connection', (0,))]
 
-PROGRAMS = [('p_edit', x) for x in EDITS]
+PROGRAMS = [('p_edit', x) for x in EDITS] + [('p_edit_sequence', x) for x in SEQUENCES]
 # the operations of C11 (refine / bisect / split / decompose / refine_layers): area, volume, conformity obligations are shared
 C11_OPS = ('refine', 'refine_bisect', 'refine_bisect_x', 'refine_bisect_edge', 'refine_edge', 'split_column', 'decompose_columns', 'refine_layers')
 PROGRAMS_C11 = [('p_edit', x) for x in EDITS if x[2] in C11_OPS]
@@ -290,7 +324,7 @@ EDITS_THOROUGH = [((3, 3, 2, 0), 1, 'refine', (4,)), ((3, 3, 2, 0), 1, 'refine',
 
 
 def programs(tier):
-    return PROGRAMS + ([('p_edit', x) for x in EDITS_THOROUGH] if tier == 'thorough' else [])
+    return PROGRAMS + ([('p_edit', x) for x in EDITS_THOROUGH] + [('p_edit_sequence', x) for x in SEQUENCES_THOROUGH] if tier == 'thorough' else [])
 
 
 def programs_c11(tier):
